@@ -42,6 +42,12 @@ theorem model_paths_live : liveness skels = true := by decide
 /-- … and, enumerated: failed start, failed listen, served with 0, 1, 2 SIGHUP reloads -/
 theorem model_paths_present : modelPathsPresent skels 2 = true := by decide
 
+/-- no entry point returns without having written out the startup logs buffered since `New` (K09g, K09h): every returning
+    path of `Start` / `StartTLS` / `StartMTLS` goes through `abortStartup` or `flushStartupLogs`; after `runServer` has
+    been entered the same holds by `pre_loop_obligation` / `loop_arms_obligation` (failure exits are `abortStartup; return`)
+    and `goroutine_obligation` (the serving goroutine flushes before it signals readiness) -/
+theorem failed_entry_flushes_startup_logs : skels.entries.all (onAll entryFlushes) = true := by decide
+
 /-! ### shapes -/
 
 /-- the event loop waits on the server error, the reload signal and the lifecycle context, in this order; the only
